@@ -153,16 +153,43 @@ func (R *Repository) loadCRL(entry *Entry, chains *core.CertificateChains) (err 
 	if err != nil {
 		return err
 	}
-	var processor = crlstore.CRLPersisterProcessor{CRLStore: entry.CRLStore}
+	identifier, err := entry.CRLLoader.GetCRLLocationIdentifier()
+	if err != nil {
+		return err
+	}
+	//the crl is read into a temporary store and only replaces the store of the entry after it has been accepted,
+	//so that a crl which is rejected or only partially read never becomes visible
+	store, err := R.Factory.CreateStore(identifier, true)
+	if err != nil {
+		return err
+	}
+	defer func() {
+		if err != nil {
+			store.Close()
+			err2 := store.Delete()
+			if err2 != nil {
+				R.logger.Warn("failed to delete database", zap.Error(err2))
+			}
+		}
+	}()
+	var processor = crlstore.CRLPersisterProcessor{CRLStore: store}
+	points, locationsErr := entry.CRLStore.GetCRLLocations()
+	if locationsErr == nil {
+		err = processor.UpdateCRLLocations(points)
+		if err != nil {
+			return err
+		}
+	}
 	result, err := R.crlReader.ReadCRL(processor, tempFileName)
 	if err != nil {
 		return err
 	}
 	if R.crlConfig.SignatureValidationModeParsed != config.SignatureValidationModeNone {
-		signatureCert, err := verifyCRLSignature(result, chains)
-		if err != nil {
+		signatureCert, verifyErr := verifyCRLSignature(result, chains)
+		if verifyErr != nil {
 			R.logger.Warn("could not validate signature of crl", zap.String("crl", entry.CRLLoader.GetDescription()))
 			if R.crlConfig.SignatureValidationModeParsed == config.SignatureValidationModeVerify {
+				err = verifyErr
 				return err
 			}
 		} else {
@@ -171,9 +198,13 @@ func (R *Repository) loadCRL(entry *Entry, chains *core.CertificateChains) (err 
 			if err != nil {
 				return err
 			}
-			R.logger.Debug("crl loaded successfully", zap.String("crl", entry.CRLLoader.GetDescription()))
 		}
 	}
+	err = entry.CRLStore.Update(store)
+	if err != nil {
+		return err
+	}
+	R.logger.Debug("crl loaded successfully", zap.String("crl", entry.CRLLoader.GetDescription()))
 	entry.Loaded = true
 	entry.Chains = nil
 	return nil
